@@ -411,6 +411,17 @@ func genCase(seed uint64, idx int) (*c08case, error) {
 		} else {
 			intent = "diff-sorted"
 		}
+		if r.Chance(1, 3) {
+			// a line that is added and deleted in the same diff (a key holds its additions before
+			// its deletions are taken out); the result is still B
+			x := w.g.Line()
+			if r.Chance(1, 2) && len(w.lines) > 0 {
+				x = w.lines[r.Intn(len(w.lines))]
+			}
+			d = append(d, "+"+x, "-"+x)
+			d = shuffled(r, d)
+			intent += "+cancel"
+		}
 		d = withNoise(r, d)
 		fb := "batches"
 		if idx%8 == 5 && s == 0 {
